@@ -32,13 +32,13 @@ typedef struct { uint32_t magic; uint32_t ord; } SCond;
 
 typedef struct {
     int state; _Atomic int futex; void* wait_obj; pthread_t real; int has_real;
-    void* (*fn)(void*); void* arg; void* ret; long prio; int yielded; int joined; int wake_spurious; long age;
+    void* (*fn)(void*); void* arg; void* ret; long prio; int yielded; int joined; int wake_spurious; long age; long stall_left;
 } SThread;
 
 static struct {
     SThread t[MAXT]; int nt;
     SchedCfg cfg; Rng rng, rng_sp;
-    long steps, switches, choices, spurious_fired, create_failed, init_failed, ncreate, ninit;
+    long steps, switches, choices, spurious_fired, create_failed, init_failed, ncreate, ninit, stalls_fired;
     uint64_t sig; uint32_t next_ord; long low_prio;
     long cp[8];
     uint8_t* trace; int ntrace, ctrace; int dpos;
@@ -103,8 +103,11 @@ static int pick_next(int self) {
             G.t[v].state = ST_RUNNABLE; G.t[v].wake_spurious = 1; G.spurious_fired++; sim_fault_fired("spurious_wakeup");
         }
     }
-    if (self >= 0 && G.t[self].state == ST_RUNNABLE && !G.t[self].yielded) cand[n++] = self;
-    for (i = 0; i < G.nt; i++) if (i != self && G.t[i].state == ST_RUNNABLE) cand[n++] = i;
+    /* stalled thread fault ("slow node"): a runnable thread that was descheduled is not a candidate while others are, for a bounded number of decisions */
+    if (self >= 0 && G.t[self].state == ST_RUNNABLE && !G.t[self].yielded && G.t[self].stall_left <= 0) cand[n++] = self;
+    for (i = 0; i < G.nt; i++) if (i != self && G.t[i].state == ST_RUNNABLE && G.t[i].stall_left <= 0) cand[n++] = i;
+    for (i = 0; i < G.nt; i++) if (G.t[i].stall_left > 0) { if (n == 0 || G.t[i].state == ST_DONE) G.t[i].stall_left = 0; else G.t[i].stall_left--; }
+    if (n == 0) { if (self >= 0 && G.t[self].state == ST_RUNNABLE && !G.t[self].yielded) cand[n++] = self; for (i = 0; i < G.nt; i++) if (i != self && G.t[i].state == ST_RUNNABLE) cand[n++] = i; }
     if (n == 0 && self >= 0 && G.t[self].state == ST_RUNNABLE) cand[n++] = self;  /* yielded but alone */
     if (self >= 0) G.t[self].yielded = 0;
     if (n == 0) return -1;
@@ -214,7 +217,7 @@ void sim_sched_reset(const SchedCfg* c) {
     if (G.cfg.fair_bound <= 0) G.cfg.fair_bound = 500;
     G.last_pick = 0; G.run_len = 0; G.fair_forced = 0;
     rng_seed(&G.rng, c->seed, "sched"); rng_seed(&G.rng_sp, c->seed, "spurious");
-    G.steps = G.switches = G.choices = G.spurious_fired = G.create_failed = G.init_failed = G.ncreate = G.ninit = 0;
+    G.steps = G.switches = G.choices = G.spurious_fired = G.create_failed = G.init_failed = G.ncreate = G.ninit = G.stalls_fired = 0;
     G.sig = 0x1234; G.next_ord = 1; G.low_prio = 0; G.ntrace = 0; G.dpos = 0;
     { Rng r; rng_seed(&r, c->seed, "pct"); for (i = 0; i < 8; i++) G.cp[i] = 1 + (long)rng_below(&r, (uint64_t)(c->horizon > 0 ? c->horizon : 300)); G.t[0].prio = 1000 + (long)rng_below(&r, 1000000); }
     G.active = 1;
@@ -238,6 +241,13 @@ void sim_yield(void) {
     G.t[t_tid].yielded = 1;
     if (G.cfg.strategy == SCHED_PCT) G.t[t_tid].prio = --G.low_prio;
     sched_point(OP_YIELD, 0);
+}
+
+void sim_sched_stall_self(long decisions) {
+    ensure_main();
+    if (decisions <= 0) return;
+    G.t[t_tid].stall_left = decisions; G.stalls_fired++; sim_fault_fired("thread_stall");
+    sched_point(OP_YIELD, 1);
 }
 
 /* ---------------- mutex ---------------- */
